@@ -25,6 +25,7 @@ import time
 import traceback
 
 from harness import common as C
+from harness import impl
 from harness.translate import t5_state
 
 PID = "C17"
@@ -1373,6 +1374,49 @@ def loop_of(info, case):
 
 # --------------------------------------------------------------------------- run
 
+def view_checkpoint_check():
+    """An MCMC run whose operator acts on a VIEW of a parameter (how the CLI writes relative rates, kappa next to the
+    frequencies, ...), checkpointing at every iteration: the checkpoint can be written, it holds the parameter the
+    view reads from with its current value, and objects rebuilt from the specification with the checkpointed values
+    written in hold that state."""
+    torch = impl.load()
+    import tempfile
+    from torchtree.core.utils import process_objects
+    found = []
+    d = tempfile.mkdtemp(prefix="c17view_")
+    ck = os.path.join(d, "ck.json")
+    spec = [{"id": "c", "type": "Parameter", "tensor": [1.0, 2.0, 3.0]},
+            {"id": "c.view", "type": "ViewParameter", "parameter": "c", "indices": "1:3"},
+            {"id": "joint", "type": "JointDistributionModel", "distributions": [
+                {"id": "pr", "type": "Distribution", "distribution": "torch.distributions.LogNormal", "x": "c",
+                 "parameters": {"loc": 0.0, "scale": 1.0}}]},
+            {"id": "mcmc", "type": "MCMC", "joint": "joint", "iterations": 6, "checkpoint": ck,
+             "checkpoint_frequency": 1, "every": 0,
+             "operators": [{"id": "op", "type": "ScalerOperator", "parameters": ["c.view"], "weight": 1.0,
+                            "scaler": 0.5}]}]
+    try:
+        dic = {}
+        for e in copy.deepcopy(spec):
+            process_objects(e, dic)
+        torch.manual_seed(17)
+        with contextlib.redirect_stdout(io.StringIO()):
+            dic["mcmc"].run()
+        now = [float(v) for v in dic["c"].tensor]
+        saved = {x.get("id"): x for x in json.load(open(ck))}
+        if "c" not in saved or [float(v) for v in saved["c"]["tensor"]] != now:
+            found.append(("C17:checkpoint:operator-on-view:state-not-in-checkpoint",
+                          f"after a run whose operator moves `c.view` the parameter `c` is {now} but the checkpoint holds "
+                          f"{saved.get('c', {}).get('tensor')} (entries: {sorted(saved)})",
+                          dict(spec=spec, checkpoint=sorted(saved))))
+    except Exception as e:  # noqa
+        found.append((f"C17:checkpoint:operator-on-view:raises:{type(e).__name__}",
+                      f"an MCMC run whose operator acts on a ViewParameter cannot write its checkpoint: "
+                      f"{type(e).__name__}: {str(e)[:160]}", dict(spec=spec)))
+    finally:
+        shutil.rmtree(d, ignore_errors=True)
+    return found
+
+
 def run(tier, seed, replay=None):
     rep = C.Report(PID, tier, seed)
     rep.trusted = C.COMMON_TRUSTED + [
@@ -1634,6 +1678,9 @@ def run(tier, seed, replay=None):
     tuple_notes = sum(n.get("benign_tuple_to_list", 0) for _, n in evals)
     for f in two_runnables_check():
         rep.violation(*f)
+    for f in view_checkpoint_check():
+        rep.violation(*f)
+    rep.case(dict(operator_on_view=True), nontrivial=True)
     rep.case(dict(two_runnables=True), nontrivial=True)
     rep.rule = (f"{len(cases)} configurations driven through torchtree.torchtree.main: every torch optimiser "
                 f"(15 settings) alone and with a rotating scheduler, every scheduler expressible in the JSON "
